@@ -1,6 +1,7 @@
 // harness/fmt_driver.cpp — implementation side of the format cluster (C08): nitro::format (operator%, args(...),
 // str(), conversion to std::string, operator<<) and nitro::except::raise / exception::what().
-//   fmt <format-hex> <op>*      op  = p:<arg> | a:<arg>,<arg>,... | a:.
+//   fmt <format-hex> <op>*      op  = p:<arg> | a:<arg>,<arg>,... | a:. | q:.
+//   lit <format-hex> <op>*      through the "..."_nf literal          excf <format-hex> <op>*   raise("pre:", formatter, "!")
 //   os <width> <fill-hex> <l|r|i> <format-hex> <op>*         operator<< into a stream with pending width/fill/adjustment
 //   rel <scenario> <format-hex> <other-format-hex> <op>* / <op>*     copy / move / relocation of the formatter object between the two groups
 //   seq <format-hex> <op>* / <format-hex> <op>* / ...        several formatters, one after the other
@@ -174,20 +175,52 @@ template <std::size_t... I>
 [[noreturn]] void raise_str(const std::vector<Val>& v, std::index_sequence<I...>) { nitro::raise(v[I].s...); }
 template <std::size_t... I>
 std::string construct_val(const std::vector<Val>& v, std::index_sequence<I...>) { return nitro::except::exception(v[I]...).what(); }
+// an exception type of the caller, constructed through the inherited variadic constructor
+struct derived_error : nitro::except::exception
+{
+    using nitro::except::exception::exception;
+};
+template <std::size_t... I>
+[[noreturn]] void raise_var(const std::vector<Val>& v, std::index_sequence<I...>) { nitro::raise(*v[I].var...); }
+template <std::size_t... I>
+[[noreturn]] void raise_tmp(const std::vector<Val>& v, std::index_sequence<I...>) { nitro::raise(std::string(v[I].s)...); }
+template <std::size_t... I>
+[[noreturn]] void raise_derived(const std::vector<Val>& v, std::index_sequence<I...>) { nitro::raise<derived_error>(v[I]...); }
+template <std::size_t N>
+void raise_any(const std::vector<Val>& v)
+{
+    if (all_strings(v)) raise_str(v, std::make_index_sequence<N>{});
+    else if (all_kind(v, 'n')) raise_var(v, std::make_index_sequence<N>{});
+    else if (all_kind(v, 'r')) raise_tmp(v, std::make_index_sequence<N>{});
+    else raise_val(v, std::make_index_sequence<N>{});
+}
 template <std::size_t N>
 std::string dispatch_exc(const std::vector<Val>& v)
 {
     if (v.size() == N)
     {
-        std::string thrown, constructed;
-        try
+        // thrown by raise(...) and caught as the library type; the same caught through the std::exception base; a copy of the
+        // caught exception; raised again from inside the handler; raise<derived_error>(...); constructed directly
+        std::string thrown, base, copied, nested, after_nested, derived, constructed;
+        try { raise_any<N>(v); }
+        catch (const nitro::except::exception& e)
         {
-            if (all_strings(v)) raise_str(v, std::make_index_sequence<N>{});
-            else raise_val(v, std::make_index_sequence<N>{});
+            thrown = e.what();
+            nitro::except::exception c(e);
+            copied = c.what();
+            try { raise_any<N>(v); }
+            catch (const std::runtime_error& inner) { nested = inner.what(); }
+            after_nested = e.what();
         }
-        catch (const nitro::except::exception& e) { thrown = e.what(); }
+        try { raise_any<N>(v); }
+        catch (const std::exception& e) { base = e.what(); }
+        try { raise_derived(v, std::make_index_sequence<N>{}); }
+        catch (const derived_error& e) { derived = e.what(); }
         constructed = construct_val(v, std::make_index_sequence<N>{});
-        if (thrown != constructed) return "W-DIFFER " + vh::hex(thrown) + " " + vh::hex(constructed);
+        for (const std::string* o : { &base, &copied, &nested, &after_nested, &derived, &constructed })
+            if (*o != thrown)
+                return "W-DIFFER raise=" + vh::hex(thrown) + " base=" + vh::hex(base) + " copy=" + vh::hex(copied) + " nested=" + vh::hex(nested)
+                       + " after=" + vh::hex(after_nested) + " derived=" + vh::hex(derived) + " constructed=" + vh::hex(constructed);
         return "W " + vh::hex(thrown);
     }
     if constexpr (N > 1) return dispatch_exc<N - 1>(v);
@@ -204,7 +237,7 @@ std::string observe(Fn&& fn)
 
 struct Op
 {
-    char kind; // 'p' or 'a'
+    char kind; // 'p', 'a' or 'q' (query the text, ignore it)
     std::vector<Val> vals;
 };
 bool no_nul(const std::string& s) { return s.find('\0') == std::string::npos; }
@@ -213,7 +246,22 @@ bool apply_ops(F& f, const std::vector<Op>& ops, bool cstr)
 {
     for (auto& o : ops)
     {
-        if (o.kind == 'p')
+        if (o.kind == 'q')
+        {
+            // ask for the text now, by one of the three routes, and ignore the answer or the exception
+            static unsigned turn = 0;
+            try
+            {
+                switch (turn++ % 3)
+                {
+                case 0: (void)f.str(); break;
+                case 1: { std::string s = f; (void)s; break; }
+                default: { std::ostringstream os; os << f; break; }
+                }
+            }
+            catch (const nitro::except::exception&) {}
+        }
+        else if (o.kind == 'p')
         {
             const Val& v = o.vals[0];
             if (v.kind == 's' && cstr && no_nul(v.s)) f % v.s.c_str();
@@ -230,7 +278,8 @@ bool parse_ops(const std::vector<std::string>& w, std::size_t from, std::size_t 
     for (std::size_t k = from; k < to; k++)
     {
         const std::string& o = w[k];
-        if (o.size() < 3 || o[1] != ':' || (o[0] != 'p' && o[0] != 'a')) return false;
+        if (o.size() < 3 || o[1] != ':' || (o[0] != 'p' && o[0] != 'a' && o[0] != 'q')) return false;
+        if (o[0] == 'q' && o != "q:.") return false;
         Op op{ o[0], {} };
         if (o.substr(2) != ".")
             for (auto& e : vh::split_on(o.substr(2), ','))
@@ -301,7 +350,13 @@ void chain(Fm&& cur, const std::vector<Op>& ops, std::size_t idx, const F* named
     }
     const Op& o = ops[idx];
     auto next = [&](auto&& r) { chain(std::forward<decltype(r)>(r), ops, idx + 1, named, cstr, out); };
-    if (o.kind == 'p')
+    if (o.kind == 'q')
+    {
+        try { (void)cur.str(); }
+        catch (const nitro::except::exception&) {}
+        next(cur);
+    }
+    else if (o.kind == 'p')
     {
         const Val& v = o.vals[0];
         if (v.kind == 's' && cstr && no_nul(v.s)) next(std::forward<Fm>(cur) % v.s.c_str());
@@ -470,7 +525,7 @@ static std::string run_case_inner(const std::vector<std::string>& w)
         std::string e, ev;
         {
             settle();
-            F h = nitro::format(fmt);
+            F h(fmt); // the constructor itself, not nitro::format
             ChainOut n;
             chain(h, ops, 0, &h, false, n);
             if (n.bad) return "BADCASE";
@@ -480,6 +535,40 @@ static std::string run_case_inner(const std::vector<std::string>& w)
         if (a != e || a != ev) return "CHAIN-DIFFER statements=" + a + " named=" + e + " value=" + ev;
         if (a != b || a != c || a != d) return "ROUTES-DIFFER str=" + a + " conv=" + b + " os=" + c + " cstr=" + d;
         return a;
+    }
+    if (w.size() >= 2 && w[0] == "lit")
+    {
+        // the user-defined literal "..."_nf: a fixed table (a literal is compile-time text); the case names the entry by its text
+#define NF(x) { std::string(x), x##_nf }
+        static const std::vector<std::pair<std::string, F>> table = {
+            NF(""), NF("{}"), NF("a"), NF("a{}b"), NF("{}{}"), NF("{{}}"), NF("}{"), NF("id={} n={}"), NF("0123456789abcdef{}"),
+            NF("{} and {} and {}"), NF("%s {} $& \\{\\}"), NF("line\n{}\ttab"), NF("\xe4{}\xff")
+        };
+#undef NF
+        const std::string fmt = vh::unhex(w[1]);
+        std::vector<Op> ops;
+        if (!parse_ops(w, 2, w.size(), ops)) return "BADCASE";
+        for (auto& e : table)
+            if (e.first == fmt)
+            {
+                F f = e.second;
+                if (!apply_ops(f, ops, false)) return "BADCASE";
+                return observe([&] { return f.str(); });
+            }
+        return "BADCASE";
+    }
+    if (w.size() >= 2 && w[0] == "excf")
+    {
+        // a formatter as an argument of an exception: raise("pre:", f, "!")
+        std::vector<Op> ops;
+        if (!parse_ops(w, 2, w.size(), ops)) return "BADCASE";
+        F f = nitro::format(vh::unhex(w[1]));
+        if (!apply_ops(f, ops, false)) return "BADCASE";
+        std::string what;
+        try { nitro::raise("pre:", f, "!"); }
+        catch (const nitro::except::exception& e) { what = e.what(); }
+        if (what.size() >= 5 && what.compare(0, 4, "pre:") == 0 && what.back() == '!') return "W " + vh::hex(what);
+        return "W-ARITY";
     }
     if (w.size() >= 5 && w[0] == "os")
     {
